@@ -9,6 +9,7 @@ import (
 
 	"github.com/google/uuid"
 	"github.com/pojntfx/panrpc/go/pkg/utils"
+	"github.com/pojntfx/panrpc/go/pkg/verifhook"
 )
 
 var (
@@ -182,16 +183,24 @@ func (r Registry[R, T]) makeRPC(
 			panic(err)
 		}
 
+		verifhook.At("rpc.call.registered", callID)
+
 		res := make(chan callResponse[T], 1) // Buffered so that the goroutine below can exit even if we've stopped waiting for the response
 		go func() {
 			defer responseResolver.Free(callID, context.Canceled)
+
+			verifhook.At("rpc.waiter.start", callID)
 
 			r, err := rr()
 			if err != nil {
 				r = &callResponse[T]{*new(T), err, true}
 			}
 
+			verifhook.At("rpc.waiter.woke", callID)
+
 			res <- *r
+
+			verifhook.At("rpc.waiter.deposited", callID)
 		}()
 
 		if err := writeRequest(b); err != nil {
@@ -201,6 +210,8 @@ func (r Registry[R, T]) makeRPC(
 		returnValues := []reflect.Value{}
 		select {
 		case rawReturnValue := <-res:
+			verifhook.At("rpc.call.selected", callID)
+
 			if functionType.NumOut() == 1 {
 				returnValue := reflect.New(functionType.Out(0))
 
@@ -230,6 +241,8 @@ func (r Registry[R, T]) makeRPC(
 				returnValues = append(returnValues, valueReturnValue.Elem(), errReturnValue.Elem())
 			}
 		case <-linkCtx.Done():
+			verifhook.At("rpc.call.selected", callID)
+
 			panic(linkCtx.Err())
 		}
 
@@ -618,6 +631,7 @@ func (r Registry[R, T]) LinkMessage(
 	}
 
 	responseResolver := utils.NewBroadcaster[callResponse[T]]()
+	verifhook.Obj("rpc.link.resolver", responseResolver)
 
 	remote := reflect.New(reflect.ValueOf(r.remote).Type()).Elem()
 
@@ -635,6 +649,8 @@ func (r Registry[R, T]) LinkMessage(
 			responseResolver.Close(err)
 		}
 
+		verifhook.At("rpc.seterr.closed", "")
+
 		fatalErrLock.L.Lock()
 		if fatalErr == nil { // Only report the first fatal error, not errors that are a consequence of it
 			fatalErr = err
@@ -648,10 +664,14 @@ func (r Registry[R, T]) LinkMessage(
 	go func() {
 		<-ctx.Done()
 
+		verifhook.At("rpc.watcher.woke", "")
+
 		setErr(ctx.Err())
 	}()
 
 	go func() {
+		verifhook.At("rpc.setup.start", "")
+
 		if err := r.implementRemoteStructRecursively(
 			ctx,
 
@@ -722,6 +742,8 @@ func (r Registry[R, T]) LinkMessage(
 				}
 
 				go func() {
+					verifhook.At("rpc.req.start", req.Call)
+
 					function, args, err := r.findLocalFunctionToCallRecursively(
 						ctx,
 
@@ -744,6 +766,8 @@ func (r Registry[R, T]) LinkMessage(
 					}
 
 					go func() {
+						verifhook.At("rpc.handler.start", req.Call)
+
 						res, err := utils.Call(function, args)
 						if err != nil {
 							setErr(err)
@@ -913,7 +937,11 @@ func (r Registry[R, T]) LinkMessage(
 		}()
 
 		wg.Wait()
+
+		verifhook.At("rpc.setup.waited", "")
 	}()
+
+	verifhook.At("rpc.link.beforeread", "")
 
 	fatalErrLock.L.Lock()
 	err := fatalErr
@@ -923,6 +951,8 @@ func (r Registry[R, T]) LinkMessage(
 		err = fatalErr
 	}
 	fatalErrLock.L.Unlock()
+
+	verifhook.At("rpc.link.return", "")
 
 	return err
 }
